@@ -166,11 +166,12 @@ pub(crate) struct CreatePromiseCapability;
 impl CreatePromiseCapability {
     #[inline(always)]
     pub(super) fn operation((): (), context: &mut Context) -> JsResult<()> {
+        // NOTE: this cannot fail per spec, but constructing the promise can still hit a
+        //       runtime limit, which has to reach the host as such.
         let promise_capability = PromiseCapability::new(
             &context.intrinsics().constructors().promise().constructor(),
             context,
-        )
-        .js_expect("cannot fail per spec")?;
+        )?;
 
         context.vm.set_promise_capability(promise_capability)
     }
